@@ -6,7 +6,9 @@
   RFC 5771: 224/4; RFC 919: 255.255.255.255);
 * the status table of the property statement;
 * `Inert`: a tokenizer accepting exactly the markup `hostname_html` may contain;
-* `NoCodes`: no SWAT style code (no match of `Clean`'s expression) anywhere in the text.
+* `NoCodes`: no SWAT style code (no match of `Clean`'s expression) anywhere in the text;
+* "200 with the stored data": for every member of the JSON bodies, which stored field it reports
+  (`serverWants`, `playerWants`, `objectiveWants`), over records given as field values by position.
 
 Nothing here refers to `Swat4.Model.*`.
 -/
@@ -197,5 +199,215 @@ def codeAt : List Char → Bool
 def NoCodes : List Char → Bool
   | [] => true
   | c :: t => !codeAt (c :: t) && NoCodes t
+
+/-! ## "200 with the stored data"
+
+A stored record is taken as the case line gives it: the address and, for `details.Info`, every
+`details.Player` and every `details.Objective`, the field values by position in the Go struct.  The
+tables below say, for every member of `model.Server`, `model.ServerPlayer`, `model.ServerObjective`
+in the order of the JSON document, which stored field it must report, by the field's Go name. -/
+
+/-- one stored field value -/
+inductive Field where
+  | str (s : List Char)
+  | int (n : Int)
+  | bool (b : Bool)
+  deriving DecidableEq, Repr
+
+/-- field kinds on a case line: 0 int, 1 bool, 2 string (as `Facts.infoFieldKinds`) -/
+def infoFieldNames : List String :=
+  ["Hostname", "HostPort", "GameVariant", "GameVersion", "GameType", "NumPlayers", "MaxPlayers", "MapName", "Password",
+   "StatsEnabled", "Round", "NumRounds", "TimeLeft", "TimeSpecial", "SwatScore", "SuspectsScore", "SwatWon", "SuspectsWon",
+   "BombsDefused", "BombsTotal", "TocReports", "WeaponsSecured", "Version"]
+def infoFieldKinds : List Nat := [2, 0, 2, 2, 2, 0, 0, 2, 1, 1, 0, 0, 0, 0, 0, 0, 0, 0, 0, 0, 2, 2, 2]
+
+def playerFieldNames : List String :=
+  ["Name", "Score", "Ping", "Team", "VIP", "CoopStatus", "Kills", "TeamKills", "Deaths", "Arrests", "Arrested", "VIPEscapes",
+   "VIPEscapes2", "VIPArrests", "VIPRescues", "VIPKillsValid", "VIPKillsInvalid", "BombsDefused", "BombsDetonated",
+   "CaseEscapes", "CaseKills", "CaseSecured"]
+def playerFieldKinds : List Nat := [2, 0, 0, 0, 1, 0, 0, 0, 0, 0, 0, 0, 0, 0, 0, 0, 0, 0, 1, 0, 0, 1]
+
+def objectiveFieldNames : List String := ["Name", "Status"]
+def objectiveFieldKinds : List Nat := [2, 0]
+
+/-- a stored struct value: `(Go field name, value)` in declaration order -/
+abbrev Entity := List (String × Field)
+
+def Entity.get (e : Entity) (name : String) : Option Field := (e.find? (·.1 == name)).map (·.2)
+
+/-- the stored record of one server -/
+structure Rec where
+  ip : Quad
+  port : Int
+  info : Entity
+  players : List Entity
+  objectives : List Entity
+  deriving Repr
+
+/-- a scalar of the JSON document: a string (decoded), a number (its literal), a boolean, `null` -/
+inductive Atom where
+  | str (s : List Char)
+  | num (lit : List Char)
+  | bool (b : Bool)
+  | null
+  deriving DecidableEq, Repr
+
+/-- `lit` is the plain decimal numeral of `n`: an optional `-`, digits, no leading zero, no `-0` -/
+def isDecimalOf (lit : List Char) (n : Int) : Bool :=
+  let neg := lit.head? == some '-'
+  let ds := if neg then lit.drop 1 else lit
+  !ds.isEmpty && ds.all isDigitChar && (ds.length == 1 || ds.head? != some '0') &&
+    (if neg then decimal ds != 0 && n == -((decimal ds : Nat) : Int) else n == ((decimal ds : Nat) : Int))
+
+/-- `a.b.c.d` -/
+def isDottedOf (s : List Char) (q : Quad) : Bool :=
+  match splitOn '.' s with
+  | [a, b, c, d] => isDecimalOf a q.a && isDecimalOf b q.b && isDecimalOf c q.c && isDecimalOf d q.d
+  | _ => false
+
+/-- `a.b.c.d:port` (split at the last… there is only one `:`) -/
+def isAddressOf (s : List Char) (q : Quad) (port : Int) : Bool :=
+  match s.dropWhile (· != ':') with
+  | ':' :: p => isDottedOf (s.takeWhile (· != ':')) q && isDecimalOf p port
+  | _ => false
+
+/-! ### slugs -/
+
+def isAsciiAlnum (c : Char) : Bool := ('0' ≤ c && c ≤ '9') || ('A' ≤ c && c ≤ 'Z') || ('a' ≤ c && c ≤ 'z')
+def asciiLower (c : Char) : Char := if 'A' ≤ c && c ≤ 'Z' then Char.ofNat (c.toNat + 32) else c
+
+def noDoubleDash : List Char → Bool
+  | '-' :: '-' :: _ => false
+  | _ :: t => noDoubleDash t
+  | [] => true
+
+/-- the shape of a slug: only `a-z 0-9 - _`, neither end is `-` or `_`, no `--` (the empty slug is allowed:
+a name without any letter or digit has none) -/
+def SlugShape (v : List Char) : Bool :=
+  v.all (fun c => ('a' ≤ c && c ≤ 'z') || ('0' ≤ c && c ≤ '9') || c == '-' || c == '_') &&
+    (match v.head? with | some c => c != '-' && c != '_' | none => true) &&
+    (match v.getLast? with | some c => c != '-' && c != '_' | none => true) &&
+    noDoubleDash v
+
+/-- `v` is a slug of `src`: it has the shape of a slug and, when `src` is plain ASCII without `&` and
+`@` (which are spelled out), the letters and digits of `v` are exactly those of `src`, lower-cased, in
+order -/
+def SlugOf (src v : List Char) : Bool :=
+  SlugShape v &&
+    (if src.all (fun c => c.toNat < 128 && c != '&' && c != '@') then
+      v.filter isAsciiAlnum == (src.filter isAsciiAlnum).map asciiLower
+    else true)
+
+/-! ### the enumerations (`details/player.go`, `details/objective.go`): names of the defined values;
+any other value is reported as its decimal numeral -/
+
+def teamNames : List (Int × String) := [(0, "swat"), (1, "suspects"), (2, "swat")]
+def coopStatusNames : List (Int × String) :=
+  [(0, "unknown"), (1, "Ready"), (2, "Healthy"), (3, "Injured"), (4, "Incapacitated")]
+def objectiveStatusNames : List (Int × String) := [(0, "In Progress"), (1, "Completed"), (2, "Failed")]
+
+def isEnumName (table : List (Int × String)) (v : Int) (s : List Char) : Bool :=
+  match table.find? (·.1 == v) with
+  | some (_, name) => s == name.toList
+  | none => isDecimalOf s v
+
+/-- the slug of an enumeration name: the name lower-cased with `-` for the space; of a numeral: its digits -/
+def isEnumSlug (table : List (Int × String)) (v : Int) (s : List Char) : Bool :=
+  match table.find? (·.1 == v) with
+  | some (_, name) => s == name.toList.map (fun c => if c == ' ' then '-' else asciiLower c)
+  | none => isDecimalOf s (if v < 0 then -v else v)
+
+/-! ### the member tables -/
+
+/-- what a member must be, in terms of the stored record -/
+inductive Want where
+  | address | ip | port                      -- of the record's address
+  | same (goField : String)                  -- the stored field, unchanged (string, int or bool alike)
+  | flag (goField : String)                  -- a stored bool as the number 0 / 1
+  | plainOf (goField : String)               -- the stored string without style codes
+  | htmlOf (goField : String)                -- the stored string as inert markup
+  | slugOf (goField : String)                -- a slug of the stored string
+  | enumName (table : List (Int × String)) (goField : String)
+  | enumSlug (table : List (Int × String)) (goField : String)
+  deriving Repr
+
+/-- `model.Server` ← `server.Server.Addr` / `.Info` -/
+def serverWants : List (String × Want) :=
+  [("address", .address), ("ip", .ip), ("port", .port),
+   ("hostname", .same "Hostname"), ("hostname_plain", .plainOf "Hostname"), ("hostname_html", .htmlOf "Hostname"),
+   ("passworded", .same "Password"),
+   ("gamename", .same "GameVariant"), ("gamever", .same "GameVersion"),
+   ("gametype", .same "GameType"), ("gametype_slug", .slugOf "GameType"),
+   ("mapname", .same "MapName"), ("mapname_slug", .slugOf "MapName"),
+   ("player_num", .same "NumPlayers"), ("player_max", .same "MaxPlayers"),
+   ("round_num", .same "Round"), ("round_max", .same "NumRounds"),
+   ("time_round", .same "TimeLeft"), ("time_special", .same "TimeSpecial"),
+   ("score_swat", .same "SwatScore"), ("score_sus", .same "SuspectsScore"),
+   ("vict_swat", .same "SwatWon"), ("vict_sus", .same "SuspectsWon"),
+   ("bombs_defused", .same "BombsDefused"), ("bombs_total", .same "BombsTotal"),
+   ("coop_reports", .same "TocReports"), ("coop_weapons", .same "WeaponsSecured")]
+
+/-- `model.ServerPlayer` ← `details.Player` -/
+def playerWants : List (String × Want) :=
+  [("name", .same "Name"), ("ping", .same "Ping"), ("score", .same "Score"),
+   ("team", .enumName teamNames "Team"), ("vip", .same "VIP"),
+   ("coop_status", .enumName coopStatusNames "CoopStatus"), ("coop_status_slug", .enumSlug coopStatusNames "CoopStatus"),
+   ("kills", .same "Kills"), ("teamkills", .same "TeamKills"), ("deaths", .same "Deaths"),
+   ("arrests", .same "Arrests"), ("arrested", .same "Arrested"),
+   ("vip_escapes", .same "VIPEscapes"), ("vip_captures", .same "VIPArrests"), ("vip_rescues", .same "VIPRescues"),
+   ("vip_kills_valid", .same "VIPKillsValid"), ("vip_kills_invalid", .same "VIPKillsInvalid"),
+   ("rd_bombs_defused", .same "BombsDefused"), ("rd_crybaby", .flag "BombsDetonated"),
+   ("sg_escapes", .same "CaseEscapes"), ("sg_kills", .same "CaseKills"), ("sg_crybaby", .flag "CaseSecured")]
+
+/-- `model.ServerObjective` ← `details.Objective` -/
+def objectiveWants : List (String × Want) :=
+  [("name", .same "Name"), ("status", .enumName objectiveStatusNames "Status"),
+   ("status_slug", .enumSlug objectiveStatusNames "Status")]
+
+/-- the members of `model.ServerDetail` -/
+def detailMembers : List String := ["info", "players", "objectives"]
+
+/-- a text both derived hostname members must leave alone: only ASCII letters and digits, and single
+spaces between them (no bracket, no markup character, no white space at the ends) -/
+def plainText (src : List Char) : Bool :=
+  src.all (fun c => isAsciiAlnum c || c == ' ') && src.head? != some ' ' && src.getLast? != some ' '
+
+/-- does the atom `a` of the document satisfy `w` for the record at `(ip, port)` with the struct value `e` -/
+def Want.holds (ip : Quad) (port : Int) (e : Entity) (w : Want) (a : Atom) : Bool :=
+  match w, a with
+  | .address, .str s => isAddressOf s ip port
+  | .ip, .str s => isDottedOf s ip
+  | .port, .num lit => isDecimalOf lit port
+  | .same f, .str s => e.get f == some (.str s)
+  | .same f, .num lit => (match e.get f with | some (.int n) => isDecimalOf lit n | _ => false)
+  | .same f, .bool b => e.get f == some (.bool b)
+  | .flag f, .num lit => (match e.get f with | some (.bool b) => lit == (if b then ['1'] else ['0']) | _ => false)
+  | .plainOf f, .str s => (match e.get f with | some (.str src) => NoCodes s && (!plainText src || s == src) | _ => false)
+  | .htmlOf f, .str s => (match e.get f with | some (.str src) => Inert s && (!plainText src || s == src) | _ => false)
+  | .slugOf f, .str s => (match e.get f with | some (.str src) => SlugOf src s | _ => false)
+  | .enumName t f, .str s => (match e.get f with | some (.int v) => isEnumName t v s | _ => false)
+  | .enumSlug t f, .str s => (match e.get f with | some (.int v) => isEnumSlug t v s | _ => false)
+  | _, _ => false
+
+/-! ### the listing (`GET /api/servers`) -/
+
+/-- the three flags: the spellings that mean true / false; an empty or absent value is false; anything
+else is a bad request -/
+def flagTrue : List String := ["1", "t", "T", "TRUE", "true", "True"]
+def flagFalse : List String := ["0", "f", "F", "FALSE", "false", "False", ""]
+
+/-- is a record with this status word, refreshed `age` seconds before the request (`none`: never),
+listed: it has the `info` status (4) and was refreshed within the liveness window -/
+def listedLive (status : Nat) (age : Option Int) (livenessSecs : Int) : Bool :=
+  status / 4 % 2 == 1 && (match age with | some a => a ≤ livenessSecs | none => false)
+
+/-- does the record's `details.Info` pass the filters of the query -/
+def listedMatches (info : Entity) (gameVariant gameVer gameType : Option (List Char)) (noPassworded noFull noEmpty : Bool) : Bool :=
+  (match gameVariant with | some v => v.isEmpty || info.get "GameVariant" == some (.str v) | none => true) &&
+  (match gameVer with | some v => v.isEmpty || info.get "GameVersion" == some (.str v) | none => true) &&
+  (match gameType with | some v => v.isEmpty || info.get "GameType" == some (.str v) | none => true) &&
+  (!noPassworded || info.get "Password" == some (.bool false)) &&
+  (!noFull || info.get "NumPlayers" != info.get "MaxPlayers") &&
+  (!noEmpty || (match info.get "NumPlayers" with | some (.int n) => n > 0 | _ => false))
 
 end Swat4.RestSpec
